@@ -50,7 +50,7 @@ def items_table(prog):
     # the fallback parser), and tagged-item constructions
     fids2 = sorted(f for f, b in prog.bodies.items() if b.file == "a2lfile/src/ifdata.rs" and b.kind != "Closure" and "::test" not in f)
     A2 = sym.Analyzer(prog, opaque=[r"ifdata::.*", r"parser::.*", r"a2ml::.*"])
-    extra = diag.module_table(prog, A2, fids2, re.compile(r"ifdata::\w+$|parser::ParserState::(set_tokenpos|get_tokenpos|undo_get_token|get_token|expect_token|get_next_tag_or_comment|get_next_id|get_incfilename)$|HashMap(<.*>)?::insert$|Vec(<.*>)?::push$"),
+    extra = diag.module_table(prog, A2, fids2, re.compile(r"ifdata::\w+$|parser::ParserState::(set_tokenpos|undo_get_token|get_token|expect_token|get_next_tag_or_comment|get_next_id|get_incfilename)$|HashMap(<.*>)?::insert$|Vec(<.*>)?::push$"),
                               adts=("a2ml::GenericIfDataTaggedItem",), cursors=False)
     for fn, rows in extra.items():
         have = out.setdefault(fn, [])
